@@ -40,6 +40,7 @@ MIN_REACH = {
     "script_executions": {"quick": 35, "thorough": 400},
     "programs_compiled": {"quick": 35, "thorough": 400},
     "cli_runs": {"quick": 4, "thorough": 40},
+    "array_scripts_with_workers_inside_a_batch": {"quick": 3, "thorough": 30},
     "cli_runs_with_function_in_a_module_beside_the_crop": {"quick": 2, "thorough": 15},
     "partial_state_scripts": {"quick": 12, "thorough": 120},
 }
@@ -139,7 +140,12 @@ def run_case(ctx, case):
         env.pop(v, None)
     B_target, bs = case["B"], case["bs"]
     n = B_target * bs
-    fn = probe.Probe("tuple:2", logfile=logfile, name="qprobe")
+    ctl = os.path.join(tmp, "ctl.json")
+    # settings take different times, so completion order varies; where workers share one batch (array mode) the spread is
+    # wider than the staggered start-up of the worker processes
+    probe.write_ctl(ctl, jitter_us=300000 if (not case.get("cli") and case.get("mode") == "array" and case["idx"] % 3 == 0) else 2000,
+                    jitter_seed=case["idx"])
+    fn = probe.Probe("tuple:2", logfile=logfile, ctl=ctl, name="qprobe")
     if case.get("cli") and case.get("user_module"):
         import sys
         import importlib
@@ -216,9 +222,12 @@ def run_case(ctx, case):
         ids = [rng.choice(allb)]
     elif kind == "int":
         ids = rng.choice(allb)
-    if opts.get("num_procs") and rng.random() < 0.3 and case["mode"] == "single":
-        opts["num_workers"] = 2
-        opts["num_procs"] = 2
+    if (opts.get("num_procs") and rng.random() < 0.3 and case["mode"] == "single") or (case["mode"] == "array" and case["idx"] % 3 == 0):
+        # workers inside one job: single mode parallelises over batches, array mode over the settings of each batch
+        opts["num_workers"] = 2 + case["idx"] % 2
+        opts["num_procs"] = opts["num_workers"]
+        if case["mode"] == "array":
+            ctx.count("array_scripts_with_workers_inside_a_batch")
     intended = ([ids] if isinstance(ids, int) else list(ids)) if ids is not None else (allb if not pre else missing0)
     cwd0 = os.getcwd()
     try:
